@@ -18,7 +18,7 @@ def start(m: Mark):
 
 
 def end(m: Mark):
-    return Off(("start", m.name), 1) if len(m.text) == 1 else Off(("end", m.name), 0)
+    return Off(("start", m.name), 1) if (len(m.text) == 1 and not m.is_block_start) else Off(("end", m.name), 0)
 
 
 LEN = Off(("len",), 0)
